@@ -19,7 +19,7 @@ RULE = ("ESS: every vector over {0,1e-300,1e-12,1e-3,1,3,1e8,1e300} of length 1.
         "x a reversal/rotation permutation, against the rational (sum w)^2/sum w^2; trimming: the same vectors (length<=4/5) x ess fractions x bin counts; "
         "volume metric: point sets x weight vectors x affine-map lattice (rotation x diagonal scaling with condition 1..1e6, translation); "
         "distinct = distinct input; non-trivial = non-uniform weights (ESS/trim) or non-identity map with both regularisation branches inactive (volume).")
-ASSUMPTIONS = ["ESS relative tolerance 1e-9 against the rational value; bounds slack N*2^-40",
+ASSUMPTIONS = ["ESS relative tolerance 1e-9 against the rational value; bounds slack N*2^-40", "volume metric: affine-invariance tolerance max(1e-9, 1e-14*cond^2) relative (x100 with a translation of 1e3)",
                "volume metric: inputs on which the rank-regularisation or the +-1e6 clip is active on either side are outside the invariance premise (counted)"]
 
 ALPHA = [0.0, 1e-300, 1e-12, 1e-3, 1.0, 3.0, 1e8, 1e300]
@@ -291,8 +291,9 @@ def run_volume(case):
                 with np.errstate(all="ignore"):
                     v2 = float(volume_variation(y, None if w is None else w.copy()))
                 res.evals += 1
-                tol = 1e-7 * cond * cond * max(1.0, (1e3 if b else 1.0)) ** 2 * 1e-6 + 1e-7 * max(1.0, base) * (cond if cond < 1e5 else cond * 10)
-                tol = max(tol, 1e-9)
+                # forward error of inverting a covariance of condition cond^2: ~eps*cond^2 (measured 3e-17*cond^2 on the pinned tree);
+                # a translation by 1e3 costs up to ~1e-10 through the centring
+                tol = max(1e-9, 1e-14 * cond * cond) * (100.0 if b else 1.0)
                 nontriv = not (cond == 1.0 and b == 0.0 and np.allclose(A, np.eye(d)))
                 res.outcome((d, n, wname, cond, round(float(A[0, 0]), 6), b), nontrivial=nontriv)
                 if not math.isfinite(v2) or abs(v2 - base) > tol * max(1.0, base):
